@@ -1,5 +1,5 @@
 (* C16 — meta encoding. Property theorems only; proofs live in Meta/Thms.v. *)
-From V Require Import Flate.Spec XFlate.Reader XFlate.RoundTripStmt Meta.Stream Meta.Deflate Meta.DeflateStream.
+From V Require Import Flate.Spec XFlate.Reader XFlate.RoundTripStmt Meta.Stream Meta.Search Meta.Deflate Meta.DeflateStream.
 From V Require Import Base.Prelude Base.Prog Meta.Model Meta.Thms.
 From V Require Import Meta.RoundTrip.
 
@@ -93,3 +93,11 @@ Print Assumptions meta_payload_is_nonfinal_empty_deflate_blocks.
 Theorem meta_final_stream_payload_is_a_complete_empty_deflate_stream : meta_footer_chunk_stmt.
 Proof. exact meta_footer_chunk. Qed.
 Print Assumptions meta_final_stream_payload_is_a_complete_empty_deflate_stream.
+
+(* SELF-LOCATING: in any byte string that ends with one encoded block, ReverseSearch returns
+   exactly the start of that block - the magic matches at the block's first byte and at NO
+   later offset inside it (header zero runs, symbol body, trailer and the zero extension past
+   the end all considered), for every payload and mode *)
+Theorem meta_reverse_search_finds_the_trailing_block : reverse_search_finds_block_stmt.
+Proof. exact reverse_search_finds_block. Qed.
+Print Assumptions meta_reverse_search_finds_the_trailing_block.
